@@ -122,6 +122,9 @@ def norm_int_index(np_, i, n):
 def getitem(np_, a, idx):
     if not isinstance(idx, tuple):
         idx = (idx,)
+    if any(x is Ellipsis for x in idx):
+        k = idx.index(Ellipsis)
+        idx = idx[:k] + (slice(None),) * (a.ndim - (len(idx) - 1)) + idx[k + 1:]
     if len(idx) > a.ndim:
         raise Raised(IndexError("too many indices for array"))
     fixed = []
@@ -212,6 +215,10 @@ def array_attr(np_, a, name):
                 return from_fn(np_, a.shape, dt, lambda *idx: z3.ToReal(elem_term(a, idx)))
             raise Untranslatable("astype on symbolic-extent array")
         return Builtin("astype", astype)
+    if name == "any":
+        return Builtin("any", lambda *x, **k: any_(np_, a))
+    if name == "all":
+        return Builtin("all", lambda *x, **k: all_(np_, a))
     if name == "sum":
         def sum_(axis=None, **k):
             if a.ndim != 1:
@@ -223,3 +230,68 @@ def array_attr(np_, a, name):
             return mk(t, kd, True)
         return Builtin("sum", sum_)
     raise Untranslatable(f"ndarray.{name} on symbolic-extent array")
+
+
+def _bound(a, idx):
+    return z3.And(*[z3.And(i >= 0, i < term_of(raw(n), "int")) for i, n in zip(idx, a.shape)])
+
+
+def any_(np_, a):
+    idx = fresh_index(np_, a.ndim)
+    body = elem_term(a, idx) if a.dtype.kind == "b" else elem_term(a, idx) != 0
+    return mk(z3.Exists(idx, z3.And(_bound(a, idx), body)), "bool", True)
+
+
+def all_(np_, a):
+    idx = fresh_index(np_, a.ndim)
+    body = elem_term(a, idx) if a.dtype.kind == "b" else elem_term(a, idx) != 0
+    return mk(z3.ForAll(idx, z3.Implies(_bound(a, idx), body)), "bool", True)
+
+
+def absolute(np_, a):
+    return from_fn(np_, a.shape, a.dtype, lambda *idx: z3.If(elem_term(a, idx) >= 0, elem_term(a, idx), -elem_term(a, idx)))
+
+
+def allclose(np_, a, b, rtol, atol):
+    if len(a.shape) != len(b.shape):
+        return False
+    idx = fresh_index(np_, a.ndim)
+    x, y = elem_term(a, idx, "float"), elem_term(b, idx, "float")
+    d = z3.If(x - y >= 0, x - y, y - x)
+    ay = z3.If(y >= 0, y, -y)
+    body = d <= real_lit(atol) + real_lit(rtol) * ay
+    same_shape = z3.And(*[term_of(raw(p), "int") == term_of(raw(q), "int") for p, q in zip(a.shape, b.shape)])
+    return mk(z3.And(same_shape, z3.ForAll(idx, z3.Implies(_bound(a, idx), body))), "bool", False)
+
+
+def real_lit(x):
+    from .values import real_val
+    return real_val(x)
+
+
+def searchsorted(np_, a, v, side="left"):
+    """Assumed contract for a 1-D array of symbolic extent: the insertion point r with 0 <= r <= n,
+    left: a[i] < v for i < r and v <= a[i] for i >= r;  right: a[i] <= v for i < r and v < a[i] for i >= r.
+    The (adjacent) sortedness of `a` is an obligation of the caller."""
+    if a.ndim != 1:
+        raise Raised(ValueError("object too deep for desired array"))
+    ctx = np_.I.ctx
+    n = term_of(raw(a.shape[0]), "int")
+    i = z3.Int(ctx.fresh_name("i"))
+    ctx.oblige("np.searchsorted:sorted-argument", "stub-pre",
+               z3.ForAll([i], z3.Implies(z3.And(i >= 0, i < n - 1), z3.Select(a.term, i) <= z3.Select(a.term, i + 1))),
+               {"stack": list(np_.I.stack)})
+    r = z3.Int(ctx.fresh_name("searchsorted"))
+    vt = term_of(raw(v), "float" if a.dtype.kind == "f" else None)
+    j = z3.Int(ctx.fresh_name("j"))
+    x = z3.Select(a.term, j)
+    if side == "left":
+        before, after = x < vt, vt <= x
+    elif side == "right":
+        before, after = x <= vt, vt < x
+    else:
+        raise Raised(ValueError(f"side must be 'left' or 'right' (got {side!r})"))
+    ctx.assume(z3.And(r >= 0, r <= n,
+                      z3.ForAll([j], z3.Implies(z3.And(j >= 0, j < r), before)),
+                      z3.ForAll([j], z3.Implies(z3.And(j >= r, j < n), after))), "stub searchsorted")
+    return Sym(r, "int", True)
